@@ -88,7 +88,12 @@ def specSched (acts : List String) (obs : String) : String :=
       (delivs.map (·.1)).eraseDups.length == delivs.length &&
       -- fully responsive server: every request whose future is still wanted has been answered
       futs.all (fun (_, id, st) => st == "dropped" || delivs.any fun (i, _, _) => i == some id) &&
-      (match acts.getLast? with | some a => a.startsWith "r" | none => false)
+      -- enough fair rounds: theorem `all_complete` needs inbox.length + live.length of them
+      (match acts.getLast? with
+        | some a => a.startsWith "r" && (match (a.drop 1).toString.toNat? with
+            | some n => delivs.length + futs.length ≤ n
+            | none => false)
+        | none => false)
     -- C07 (session part): once the transport has failed, fair polling completes EVERY future that was
     -- not dropped — with its parked reply or with an error — nothing stays pending
     let endsWithRounds := (match acts.getLast? with | some a => a.startsWith "r" | none => false)
